@@ -6,6 +6,14 @@ HERE = os.path.dirname(os.path.dirname(os.path.abspath(__file__)))
 
 # id -> (category, technique, text, note)
 CLAIMED = {
+ "C09": ("other", "matrix-word normal forms of the stored forward/inverse rotation pairs and of call_array/inverse_array (substitution + cancellation), table-backed sign elimination, stage-chain and mask provenance of the pull-back warp (ast)",
+         "Decides in exact algebra, for every parameter choice and number of rotation factors: each separately stored inverse rotation is "
+         "the inverse of the forward one (negated generators, mirrored accumulation side, identity start), inverse_array(call_array(X)) "
+         "and the converse reduce to X, typed wrapping is symmetric, the warp pulls destination voxel centres back through the inverse "
+         "map into source voxels with a two-sided mask applied identically on both sides, results are labelled with the destination "
+         "system; the floor-based voxel conversion is C01.d. Not decided: orthonormality/determinant to tolerance, exact array equality "
+         "for identity/shift/quarter turn, fitted parameters.",
+         "Trusted: python ast parser; sa/algebra.py (NC words with Poly coefficients); Rotation.from_rotvec(v) is a group generator with inverse from_rotvec(-v); np.linalg.inv(E) is E^-1."),
  "C06": ("other", "axis-map extraction of the shifted-slice blocks + affine normal forms of the interpolation factors + dispatch vocabulary (ast)",
          "Narrow claim. Decided per axis block: the divergence pairs sign (+,-) with (lower, higher) cell and the face area of the same "
          "axis; mass matrices are prod(voxel_size) on the diagonal; reconstruction writes component d from the faces of axis d with "
